@@ -105,6 +105,11 @@ main(int argc, char *argv[])
 	snprintf(path, sizeof(path), "%s/trace", dir);
 	setenv("OVNI_TRACEDIR", path, 1);
 	unsetenv("OVNI_TMPDIR");
+	if (getenv("VERIF_TMPDIR")) {
+		/* streams are written to a temporary directory and relocated at thread end */
+		snprintf(path, sizeof(path), "%s/tmp", dir);
+		setenv("OVNI_TMPDIR", path, 1);
+	}
 
 	if (strcmp(argv[2], "-") != 0) {
 		char *s = strdup(argv[2]);
